@@ -80,10 +80,26 @@ class Report:
 
 
 def load_known():
-    p = os.path.join(VERIF, 'known_findings.json')
+    """known_findings.txt: one finding per line.
+       open:  property=<id> key=<property|rule|where|construct> :: <what fails>      (reported as KNOWN-FINDING, does not fail)
+       fixed: property=<id> <commit> <what failed>                                    (suppresses nothing)"""
+    p = os.path.join(VERIF, 'known_findings.txt')
+    out = []
     if not os.path.exists(p):
-        return []
-    return json.load(open(p))['findings']
+        return out
+    for line in open(p):
+        line = line.strip()
+        if not line or line.startswith('#'):
+            continue
+        if line.startswith('open:'):
+            rest = line[len('open:'):].strip()
+            head, _, what = rest.partition('::')
+            fields = dict(f.split('=', 1) for f in head.split() if '=' in f and not f.startswith('key='))
+            key = head[head.index('key=') + 4:].strip() if 'key=' in head else ''
+            out.append({'status': 'open', 'property': fields.get('property'), 'key': key, 'what': what.strip()})
+        elif line.startswith('fixed:'):
+            out.append({'status': 'fixed', 'line': line})
+    return out
 
 
 def finish(rep, tier, t0, level, explanation, assumptions, rule_text, samples, extra_cov=None):
